@@ -353,6 +353,26 @@ pub fn head_flag_cycle_hi(kind: Kind) -> Program {
     p
 }
 
+/// A three-level chain whose middle function is backdated: node 0 follows cell 0, node 1 maps both
+/// values of node 0 to the same result, node 2 reads node 1 and the unrelated cell 1 (C03: after
+/// the backdating revision an unrelated write must not re-execute node 1; seeded change C03-r5
+/// verifies dependencies against `changed_at` instead of `verified_at`). Explored one operation
+/// deeper (the history needs five operations).
+pub fn backdate_chain() -> Vec<Program> {
+    let mk = |name: &str, top: Ex| Program {
+        name: format!("deep-backdate-chain-{name}"),
+        cells: vec![(0, Dur::Low), (1, Dur::Low)],
+        nodes: vec![
+            NodeDef::new(Kind::Ev, cell(0)),
+            NodeDef::new(Kind::Ev, Ex::or(call(0), k(1))),
+            NodeDef::new(Kind::Ev, top),
+        ],
+        ext: vec![0],
+        root0: None,
+    };
+    vec![mk("a", Ex::add(call(1), cell(1))), mk("b", call(1))]
+}
+
 /// The 27 monotone node templates over three nodes (C12/C13).
 pub fn cyc_template(t: usize) -> Ex {
     let pairs = [(0u8, 1u8), (0, 2), (1, 2)];
